@@ -249,19 +249,30 @@ def isLiteralColl : Exp → Bool
 /-- In a compiled map call every `split` binding also references the call's
 primary split source when that is a plain reference (Go `SplitExp.FindRefs`
 adds `Source.Master`): the first split over a literal collection if there is
-one, else the first split. -/
-def masterRef (c : Call) : Option Ref :=
-  if !hasFlag c 'm' then none else
-  let splits := c.binds.filterMap (fun b => match b.exp with | .split v => some v | _ => none)
-  match splits.find? isLiteralColl with
-  | some _ => none
-  | none =>
-    match splits with
-    | .ref r :: _ => some r
-    | _ => none
+one, else the first split; a split over the output of another map call of the
+same pipeline shares that call's primary source. -/
+def masterRefIn (pipe : Callable) : Nat → Call → Option Ref
+  | 0, _ => none
+  | fuel + 1, c =>
+    if !hasFlag c 'm' then none else
+    let splits := c.binds.filterMap (fun b => match b.exp with | .split v => some v | _ => none)
+    match splits.find? isLiteralColl with
+    | some _ => none
+    | none =>
+      match splits with
+      | .ref r :: _ =>
+        if r.kind = RefKind.call then
+          match pipe.calls.find? (·.id == r.id) with
+          | some k =>
+            match masterRefIn pipe fuel k with
+            | some r' => some r'
+            | none => some r
+          | none => some r
+        else some r
+      | _ => none
 
-def withMaster (c : Call) (bs : List Bind) : List Bind :=
-  match masterRef c with
+def withMaster (m : Option Ref) (bs : List Bind) : List Bind :=
+  match m with
   | none => bs
   | some r => bs.flatMap fun b =>
       match b.exp with
@@ -269,7 +280,7 @@ def withMaster (c : Call) (bs : List Bind) : List Bind :=
       | _ => [b]
 
 def compiledBinds (p : Program) (pipe : Callable) (c : Call) : List Bind :=
-  withMaster c <|
+  withMaster (masterRefIn pipe (pipe.calls.length + 1) c) <|
   match c.binds.find? (·.name == "*") with
   | some w =>
     match w.exp with
